@@ -36,7 +36,7 @@ def _clamp_slice(lo, hi, n):
     return a, z3.simplify(z3.If(b > a, b - a, z3.IntVal(0)))
 
 
-def need_rank(ex, state, arr, line):
+def need_rank(ex, state, arr, line, want=4):
     """an array taken from a list has a symbolic rank: using it as an n-d array needs rank == number of tracked dims"""
     if isinstance(arr, SOpt):
         ex.ctx.oblige(state, 'not-None', line, arr.defined, 'environment / stack entry used before it is set')
@@ -45,6 +45,10 @@ def need_rank(ex, state, arr, line):
         ex.ctx.oblige(state, 'not-None', line, False, 'None used as an array')
         raise Unsupported('None used as an array at line %d' % line)
     if isinstance(arr, SArr) and not is_conc_int(arr.ndim):
+        if len(arr.shape) == 5:
+            # element of a core list that may hold a 5-d block core: the use decides which rank is meant
+            ex.ctx.oblige(state, 'array-rank', line, zi(arr.ndim) == want, 'array rank is not %d' % want)
+            return arr.with_(shape=list(arr.shape[:want]), ndim=want)
         ex.ctx.oblige(state, 'array-rank', line, zi(arr.ndim) == len(arr.shape), 'array rank is not %d' % len(arr.shape))
         return arr.with_(ndim=len(arr.shape))
     return arr
@@ -54,8 +58,8 @@ def getitem(ex, state, arr, idx, line, for_store=False):
     """basic + advanced indexing.  Returns the selected sub-array (a view for basic indexing, a fresh array otherwise)."""
     if not isinstance(idx, tuple) or (is_tag(idx, 'slice')):
         idx = (idx,)
-    arr = need_rank(ex, state, arr, line)
     n_real = sum(1 for i in idx if not isinstance(i, SNone))
+    arr = need_rank(ex, state, arr, line, want=5 if n_real == 5 else 4)
     if n_real > len(arr.shape):
         ex.ctx.oblige(state, 'index-rank', line, False, 'too many indices')
         raise Unsupported('too many indices at line %d' % line)
@@ -73,6 +77,13 @@ def getitem(ex, state, arr, idx, line, for_store=False):
         if is_tag(it, 'slice'):
             _, lo, hi, step = it
             if step is not None:
+                if as_conc(step) == -1 and lo is None and hi is None:
+                    # a[::-1]: the whole axis reversed (a view of the same length; not a prefix, not contiguous)
+                    out.append(n)
+                    axis_sel[ax] = ('slice', z3.IntVal(0), n)
+                    full_view = False
+                    ax += 1
+                    continue
                 raise Unsupported('strided array slice at line %d' % line)
             if isinstance(lo, SMaxRank) or isinstance(hi, SMaxRank):
                 for b_ in (lo, hi):
@@ -402,9 +413,20 @@ def svd(ex, state, a, full_matrices, overwrite_a, line):
     if len(a.shape) != 2:
         ex.ctx.oblige(state, 'svd-rank', line, False, 'expected matrix')
         raise Unsupported('svd of a non-matrix at line %d' % line)
-    if full_matrices is not False:
-        raise Unsupported('svd with full_matrices at line %d' % line)
     m, n = a.shape
+    if full_matrices is True:
+        # full SVD: u is m x m and v is n x n (both unitary), min(m, n) singular values
+        k = fresh('k')
+        state.assume(k == z3.If(m < n, m, n))
+        if overwrite_a:
+            ex.write_buffer(a.buf, state, line, 'LAPACK overwrite_a=True may clobber the argument buffer')
+        u = new_arr(state, [m, m], a.cplx, flags={'isocols': True, 'isorows': True})
+        s = new_arr(state, [k], False)
+        v = new_arr(state, [n, n], a.cplx, flags={'isocols': True, 'isorows': True})
+        s.descending_nonneg = True
+        return u, s, v
+    if full_matrices is not False:
+        raise Unsupported('svd with symbolic full_matrices at line %d' % line)
     # LAPACK rejects empty matrices in older versions; k = min(m, n)
     k = fresh('k')
     state.assume(k == z3.If(m < n, m, n))
